@@ -1,5 +1,5 @@
 """property -> rules"""
-from . import rules_dd, rules_bounds, rules_limits, rules_tools, rules_conv, rules_handles, rules_access, rules_coders, rules_errors, rules_layout
+from . import rules_dd, rules_bounds, rules_limits, rules_tools, rules_conv, rules_handles, rules_access, rules_coders, rules_errors, rules_layout, rules_ann
 
 CLANG = "clang 14 parser, constant evaluator and CFG builder (via tools/h4x.cc)"
 CDB = "compile flags taken from ninja -t compdb of /repo/_build (or a throw-away cmake configure)"
@@ -171,6 +171,18 @@ PROPS["C15"] = {
     "level_text": "Sibling-implementation agreement through a common specification: a one-sided layout change in any interface is reported, which the suite cannot see when it reads files with the interface that wrote them.",
     "level_note": "Trusted: clang front end, build flags, the transcribed layouts. Agreement of values is not claimed.",
     "technique": "AST codec-layout extraction compared with a frozen spec across modules",
+}
+
+PROPS["C11"] = {
+    "rules": [rules_ann.rule_type_tag_maps, rules_ann.rule_prefix_siblings, rules_ann.rule_key_macros, rules_ann.rule_one_shot_flags, _layouts("annotation")],
+    "level": "other",
+    "explanation": "Decides structural necessary conditions of 'annotations stay attached and keep their text': (MAP) every switch in the AN interface that maps an annotation type to a tag (or back) agrees with the format (label/description x object/file <-> DIL 104, DIA 105, FID 100, FD 101), arms do not fall through; (PREFIX) every condition that groups annotation tags uses one of the four legitimate groupings and the three payload siblings (ANIwriteann, ANIreadann, ANIannlen) select the 4-byte target tag/ref prefix for exactly {DIL, DIA}; (KEY) AN_CREATE_KEY / AN_KEY2TYPE / AN_KEY2REF are mutually inverse on 16-bit type and ref; (ONESHOT) ANIwriteann leaves the annotation's new_ann flag consumed (0) on every non-failing path, so a second write reuses the tag/ref; (F1) the target prefix is encoded as u16 tag, u16 ref in mfan.c and in the single-file dfan.c. Not decided: listing order, text bytes, which annotations a tree holds for a given history (e.g. the in-session rewrite flag, the cached directories of dfan.c).",
+    "rule_text": "instances = annotation type/tag switches, tag-grouping conditions, key-macro expansions, prefix codec rows",
+    "trusted": [CLANG, CDB, "the tag numbers of the format"],
+    "assumptions": [],
+    "level_text": "Exhaustive agreement of the twelve in-line type<->tag maps, the payload-layout siblings and the id<->tag/ref bijection with the format; a wrong arm in one of them passes every test that does not use that annotation kind through that entry point.",
+    "level_note": "Trusted: clang front end and constant evaluator, build flags, the four tag numbers.",
+    "technique": "switch-table and sibling-condition agreement over clang ASTs",
 }
 
 NOT_APPLICABLE = {
